@@ -238,9 +238,22 @@ def check_conv_array(chk, arr, form):
     case0 = {"part": "B", "form": form, "first": int(arr.flat[0]), "n": int(arr.size)}
     with chk.guard(("gray_conv", form), case0):
         py = [int(v) for v in arr.ravel().tolist()] if arr.size <= 200000 else None
+        before = arr.copy()
         g = C.binary2gray(arr)
+        g_before = np.array(g, copy=True)
         back = C.gray2binary(g)
+        # arguments are never modified and results do not alias them; a second call agrees
+        if not np.array_equal(np.asarray(g), g_before) or not np.array_equal(arr, before):
+            chk.fail(("gray_conv", "argument_modified_in_place"), case0,
+                     observed="argument array changed by the call", expected="arguments untouched")
+        back2 = C.gray2binary(g)
+        if not np.array_equal(np.asarray(back), np.asarray(back2)):
+            chk.fail(("gray_conv", "second_call_differs"), case0, observed="gray2binary(g) twice differs",
+                     expected="same result")
         fwd = C.binary2gray(C.gray2binary(arr))
+        if not np.array_equal(arr, before):
+            chk.fail(("gray_conv", "argument_modified_in_place"), case0,
+                     observed="argument array changed by the call", expected="arguments untouched")
         chk.count("eval_integers", int(arr.size))
         a64 = arr.astype(np.uint64)
         ref_g = a64 ^ (a64 >> np.uint64(1))
@@ -323,7 +336,13 @@ def check_biterrors(chk, a, b, form):
     with chk.guard(("count_bit_errors", form), case):
         ref = _popcount_u64(a.astype(np.uint64) ^ b.astype(np.uint64))
         chk.count("eval_bit_error_pairs", int(a.size))
+        a0, b0 = a.copy(), b.copy()
         got = misc.count_bit_errors(a, b)
+        if not (np.array_equal(a, a0) and np.array_equal(b, b0)):
+            chk.fail(("count_bit_errors", "argument_modified_in_place", form), case,
+                     observed="argument changed", expected="arguments untouched")
+        if a.size and int(misc.count_bit_errors(a, b)) != int(got):
+            chk.fail(("count_bit_errors", "second_call_differs", form), case, observed="differs", expected="same")
         if int(got) != int(ref.sum()):
             chk.fail(("count_bit_errors", "total", form), case, observed=int(got), expected=int(ref.sum()))
         for ax in range(a.ndim):
